@@ -36,7 +36,11 @@ inductive Child (resolveCd : String → String → String) (walked : List String
   | cmdRedir {ws rs cwd rd} : rd ∈ rs → Child resolveCd walked r (.node (.command ws rs), cwd) (.redir rd, cwd)
   -- compound commands
   | pipeline {cmds cwd n} : n ∈ cmds → Child resolveCd walked r (.node (.pipeline cmds), cwd) (.node n, cwd)
-  | list {parts cwd n} : n ∈ parts → isOperator n = false →
+  /-- the first part of a list runs in the directory the list is entered in (a leading `cd` has not happened yet) … -/
+  | listFirst {parts cwd n} : firstNonOp parts = some n →
+      Child resolveCd walked r (.node (.list parts), cwd) (.node n, cwd)
+  /-- … the later ones where a leading literal `cd` leads -/
+  | list {parts cwd n} : n ∈ restAfterFirstNonOp parts → isOperator n = false →
       Child resolveCd walked r (.node (.list parts), cwd) (.node n, effectiveCwdS resolveCd parts cwd r)
   | ifCond {c t e rs cwd} : Child resolveCd walked r (.node (.ifN c t e rs), cwd) (.node c, cwd)
   | ifThen {c t e rs cwd} : Child resolveCd walked r (.node (.ifN c t e rs), cwd) (.node t, cwd)
